@@ -80,15 +80,29 @@ func c08Case(ctx *genCtx, ts *tape.Set, dir string) *genResult {
 	}
 	files := w.Render()
 	base := filepath.Join(dir, "base")
-	writeWorld(base, files)
 	vt := ts.Fork("variants")
+	// one case in five runs in GOPATH mode (GO111MODULE=off, <root>/src/example.com/w/...), all its executions alike
+	gopath := vt.Intn(5) == 0 && w.PName == ""
+	sub := ""
+	if gopath {
+		writeWorld(base, gopathLayout(files))
+		sub = "src/example.com/w"
+	} else {
+		writeWorld(base, files)
+	}
+	envFor := func(root string) []string {
+		if gopath {
+			return gopathEnv(root)
+		}
+		return nil
+	}
 	flags := w.PrefixFlags()
 	res := &genResult{Sample: map[string]any{"files": userSources(files), "flags": flags}}
 
 	// initial disk state: nothing, or the output of an identity run
 	prefilled := vt.Bool()
 	if prefilled {
-		r := runGoderive(ctx.bins.inst, base, append(append([]string{}, flags...), "./..."), &Plan{MapMode: "identity"}, 0)
+		r := runGoderive(ctx.bins.inst, filepath.Join(base, sub), append(append([]string{}, flags...), "./..."), &Plan{MapMode: "identity"}, 0, envFor(base)...)
 		res.count(r)
 		if m := noCrash(r); m != "" {
 			res.SawPanic = true
@@ -119,14 +133,14 @@ func c08Case(ctx *genCtx, ts *tape.Set, dir string) *genResult {
 		if err := copyTree(base, vd, nil); err != nil {
 			harnessTrouble("copy world: %v", err)
 		}
-		r := runGoderive(ctx.bins.inst, filepath.Join(vd, inv.Cwd), append(append([]string{}, flags...), inv.Args...), plan, gmp)
+		r := runGoderive(ctx.bins.inst, filepath.Join(vd, sub, inv.Cwd), append(append([]string{}, flags...), inv.Args...), plan, gmp, envFor(vd)...)
 		res.count(r)
 		if m := noCrash(r); m != "" {
 			res.SawPanic = true
 		}
 		o := outcome{desc: fmt.Sprintf("cwd=%s args=%v map=%s/%d pkgorder=%d gomaxprocs=%d", inv.Cwd, inv.Args, plan.MapMode, plan.MapSeed, plan.PkgOrder, gmp), exit: r.Exit, hashes: map[string]string{}, stderr: r.Stderr}
 		for _, pk := range inv.Pkgs {
-			o.hashes[pk] = fileHash(filepath.Join(vd, pk, "derived.gen.go"))
+			o.hashes[pk] = fileHash(filepath.Join(vd, sub, pk, "derived.gen.go"))
 		}
 		if len(inv.Pkgs) > 1 {
 			res.probe("variant.multi_package")
@@ -148,8 +162,8 @@ func c08Case(ctx *genCtx, ts *tape.Set, dir string) *genResult {
 					}
 				}
 				if ref != "" && ref != o.hashes[pk] && res.V == nil {
-					a, _ := os.ReadFile(filepath.Join(dir, "v0", pk, "derived.gen.go"))
-					b, _ := os.ReadFile(filepath.Join(vd, pk, "derived.gen.go"))
+					a, _ := os.ReadFile(filepath.Join(dir, "v0", sub, pk, "derived.gen.go"))
+					b, _ := os.ReadFile(filepath.Join(vd, sub, pk, "derived.gen.go"))
 					d := firstDiff(string(a), string(b))
 					res.V = &genViolation{Clause: "bytes-differ", Detail: fmt.Sprintf("package %s: derived.gen.go differs between [%s] (%s) and [%s] (%s, exit %d): %s", pk, refDesc, ref, o.desc, o.hashes[pk], o.exit, d),
 						Facts: map[string]string{"diff": d, "sources": joinFiles(userSources(files)), "variant_a": refDesc, "variant_b": o.desc, "stderr": o.stderr}}
@@ -165,6 +179,10 @@ func c08Case(ctx *genCtx, ts *tape.Set, dir string) *genResult {
 	}
 	res.Sample["variants"] = descs
 	res.Sample["prefilled"] = prefilled
+	res.Sample["gopath_mode"] = gopath
+	if gopath {
+		res.probe("world.gopath_mode")
+	}
 	res.Hash = worldHash(files, strings.Join(descs, ";"))
 	res.Nontrivial = len(w.Calls)+len(w.QCalls) >= 3 || w.HasQ || w.HasExt || prof.NamedComposite
 	return res
